@@ -78,7 +78,10 @@ def units_for(prop, tier, gdir):
                 rlen = 1 if (tier == 'quick' and heavy) else rel.RLEN
                 xa = 's1.m_dynamic_age_ratio == 0.5f' if (tier == 'quick' and cn == 'lfuda_cache') else None
                 for case in cases:
-                    units.append(rel.RelUnit(cn, op, 2 if tier == 'quick' else 3, sp, infos[cn], gen, timeout=800 if tier == 'quick' else 7200, case=case, rlen=rlen, extra_assume=xa))
+                    # ut_map/ut_set have no capacity: MAXCAP bounds the stored entries, and the pre-state must be able to hold an
+                    # (expired) entry besides the range's keys, so these run at MAXCAP 3 also in the quick tier
+                    mc = 3 if (tier != 'quick' or cn in ('ut_map', 'ut_set')) else 2
+                    units.append(rel.RelUnit(cn, op, mc, sp, infos[cn], gen, timeout=800 if tier == 'quick' else 7200, case=case, rlen=rlen, extra_assume=xa))
         return units, notes
     for cn, sp in specs.items():
         if prop not in sp.props:
